@@ -24,11 +24,23 @@ RUN_TIMEOUT = float(os.environ.get("VERIF_RUN_TIMEOUT", "420"))
 _WARM = False
 
 
-def _warm_up(only=None):
-    """Fixed warm-up of a zygote: import the library, load the JIT kernels (deterministic, no PRNG)."""
+# What a zygote did before the runs it serves: the "process history" dimension of the simulation.  The variant a
+# run meets is a function of its seed (seed % 4, like the hash seed), so it is part of the replayable execution.
+WARMUPS = (
+    (("daily", "default", 100), ("billing", "default", 101), ("hourly", "seed1", 102)),
+    (("daily", "seasonmap", 107), ("billing", "seasonmap", 103), ("hourly", "robust", 104)),
+    (("daily", "legacy", 102), ("daily", "dev_nosmooth", 101), ("billing", "dev_split", 100), ("hourly", "seed0", 106)),
+    (("hourly", "nonsolar", 108),),
+)
+
+
+def _warm_up(only=None, variant=None):
+    """Fixed warm-up of a zygote: import the library, fit a few models (deterministic, no PRNG)."""
     global _WARM
     if _WARM:
         return
+    if variant is None:
+        variant = int(os.environ.get("VERIF_WARM_VARIANT", "0"))
     em = env.import_library()
     from . import catalogue as C
     from . import profiles as P
@@ -36,7 +48,7 @@ def _warm_up(only=None):
     import io
 
     with contextlib.redirect_stdout(io.StringIO()), contextlib.redirect_stderr(io.StringIO()):
-        for fam, prof, mid in (("daily", "default", 100), ("billing", "default", 101), ("hourly", "seed1", 102)):
+        for fam, prof, mid in WARMUPS[variant % len(WARMUPS)]:
             if only and fam != only:
                 continue
             rec = {"fam": P.FAMILIES[fam][1], "mid": mid, "role": "baseline", "tz": "America/Chicago", "entry": "series"}
@@ -67,8 +79,11 @@ def execute(sched: dict) -> dict:
     w = Worker(0)
     store = {}
     outs = []
-    for ev in sched["events"]:
-        outs.append(w.exec(ev, store))
+    try:
+        for ev in sched["events"]:
+            outs.append(w.exec(ev, store))
+    finally:
+        w.close()
     V, keys, H, notes = oracles.judge(sched["events"], outs)
     stats = {"events": len(outs), "by_kind": {}, "classes": {}, "faults_fired": {}, "ops_by_family": {},
              "presigs": [], "probes": w.probes, "simulated_seconds": w.clock.now - 1000.0,
@@ -172,11 +187,11 @@ def run_seed(job):
 HASHSEEDS = ("0", "101", "20202", "3030303")
 
 
-def job_hashseed(job) -> str:
-    """The hash seed a job runs under is a pure function of its seed (recorded in replay files)."""
+def job_class(job) -> int:
+    """Zygote class (hash seed + warm-up variant) of a job: a pure function of its seed, recorded in replay files."""
     if job[0] == "sched":
-        return str(job[1].get("hashseed", "0"))
-    return HASHSEEDS[job[0] % len(HASHSEEDS)]
+        return int(job[1].get("zclass", 0)) % len(HASHSEEDS)
+    return job[0] % len(HASHSEEDS)
 
 
 def zygote_main():
@@ -195,6 +210,7 @@ def zygote_main():
         except BaseException as e:  # noqa: BLE001
             rec = {"fatal": f"zygote: {type(e).__name__}: {e}", "trace": traceback.format_exc(limit=6)}
         rec["hashseed"] = os.environ.get("PYTHONHASHSEED")
+        rec["zclass"] = int(os.environ.get("VERIF_WARM_VARIANT", "0"))
         proto_out.write(base64.b64encode(pickle.dumps(rec)).decode() + "\n")
         proto_out.flush()
     os._exit(0)
@@ -212,18 +228,20 @@ class ZygotePool:
         n = n or min(16, os.cpu_count() or 4)
         n = max(n, len(hashseeds))
         th = env.tree_hash()
-        self.queues = {h: queue.Queue() for h in hashseeds}
+        self.queues = {c: queue.Queue() for c in range(len(hashseeds))}
         self.procs = []
         self.threads = []
         self.closed = False
         for i in range(n):
-            h = hashseeds[i % len(hashseeds)]
+            c = i % len(hashseeds)
+            e = env.child_env(threads="1", hashseed=hashseeds[c], th=th)
+            e["VERIF_WARM_VARIANT"] = str(c)
             p = subprocess.Popen([env.PY, "-W", "ignore", "-c", "from sim import runner; runner.zygote_main()"],
-                                 cwd=env.VERIF, env=env.child_env(threads="1", hashseed=h, th=th),
+                                 cwd=env.VERIF, env=e,
                                  stdin=subprocess.PIPE, stdout=subprocess.PIPE, stderr=subprocess.DEVNULL, text=True,
                                  bufsize=1)
             self.procs.append(p)
-            t = threading.Thread(target=self._serve, args=(p, self.queues[h]), daemon=True)
+            t = threading.Thread(target=self._serve, args=(p, self.queues[c]), daemon=True)
             t.start()
             self.threads.append(t)
 
@@ -254,10 +272,7 @@ class ZygotePool:
 
         fut = Future()
         fut.set_running_or_notify_cancel()
-        h = job_hashseed(job)
-        if h not in self.queues:
-            h = HASHSEEDS[0]
-        self.queues[h].put((job, fut))
+        self.queues[job_class(job)].put((job, fut))
         return fut
 
     def shutdown(self, wait=False, cancel_futures=True):
@@ -303,7 +318,7 @@ def ensure_numba_cache():
                 shutil.rmtree(os.path.join(root, name), ignore_errors=True)
     procs = []
     for fam in ("daily", "billing", "hourly"):
-        code = f"from sim import runner; runner._warm_up(only={fam!r})"
+        code = f"from sim import runner; runner._warm_up(only={fam!r}, variant=0)"
         procs.append(subprocess.Popen([env.PY, "-W", "ignore", "-c", code], cwd=env.VERIF, env=env.child_env(th=th),
                                       stdout=subprocess.DEVNULL, stderr=subprocess.PIPE, text=True))
     for p in procs:
